@@ -195,6 +195,9 @@ static void build_ops(void)
 	e.rch = 'Z'; e.cnt1 = 2; add(e, "2rZ");
 	e.cnt1 = 9; add(e, "9rZ");
 	e.cnt1 = 0; e.rch = '\n'; add(e, "r\n");
+	e.cnt1 = 2; add(e, "2r\n");
+	e.cnt1 = 3; add(e, "3r\n");
+	e.cnt1 = 0;
 	memset(&e, 0, sizeof(e));
 	e.kind = E_TILDE; add(e, "~");
 	e.cnt1 = 3; add(e, "3~");
